@@ -382,6 +382,28 @@ def run():
                     else "all %d operations agree but the finished run is not the RQ the implementation returned" % nops
                 ck.violation("Model/Lowerer.v disagrees with semantic/lowering.rs: %s" % where,
                              {"program": p, "verdict": v, "operations": nops, "events": a["ops"][:120]})
+        # clause 2 as an invariant of the machine: the same trace under the STRICT machine (vstep = step + every emitted transform uses
+        # only ids of the visible set of the pipeline under construction).  strict_trace_replay_gives_wf_rq: a strict replay proves
+        # rq_wf of the RQ; conversely the first operation the strict machine refuses is where an out-of-scope id reached the
+        # Lowerer.  The verdict must agree with rq_diags evaluated on the finished RQ, program by program.
+        ops_of = {}
+        for p, term, qc, nops, a in cases:
+            ops_of[p] = a["ops"]
+        agreeing = [(c, v) for c, v in zip(cases, vals or []) if v == 0]
+        svals = coq_eval(c16_trace.COQ_HEADER, ["(replay_strict_verdict %s %s)" % (c[1], c[2]) for c, _ in agreeing]) if agreeing else []
+        for ((p, term, qc, nops, a), _), sv in zip(agreeing, svals):
+            ck.count("strict-machine", p)
+            d = py[p]
+            if sv == 0 and not d:
+                ck.stat("strict-machine", "strict-replay-ok = rq_wf")
+            elif sv != 0 and d:
+                kinds = c16_trace.op_kinds(a["ops"], a["ok"])
+                k = kinds[sv - 1] if isinstance(sv, int) and 0 < sv <= len(kinds) else "?"
+                ck.stat("strict-machine", "refused = not rq_wf (known finding), refused operation: " + k)
+            else:
+                ck.stat("strict-machine", "MISMATCH")
+                ck.violation("the strict Lowerer machine (Model/LowererVis.v) and rq_diags disagree on one program: strict verdict %s, diagnostics %s" % (sv, d[:3]),
+                             {"program": p, "strict_verdict": sv, "diagnostics": [list(x) for x in d]})
         # the comparison has teeth: a trace with one id changed, one event dropped or one redirect pair removed must NOT replay
         muts, meta = [], []
         for p, term, qc, nops, a in cases[:ck.n(60, 400)]:
